@@ -281,9 +281,15 @@ impl TxPool {
         for entry in removed {
             let tx_hash = entry.transaction().hash();
             debug!("remove_expired {} timestamp({})", tx_hash, entry.timestamp);
-            self.pool_map.remove_entry(&entry.proposal_short_id());
-            let reject = Reject::Expiry(entry.timestamp);
-            callbacks.call_reject(self, &entry, reject);
+            // descendants leave with it: their inputs would refer to nothing
+            // (an entry may already have left together with an expired ancestor)
+            let removed = self
+                .pool_map
+                .remove_entry_and_descendants(&entry.proposal_short_id());
+            for entry in removed {
+                let reject = Reject::Expiry(entry.timestamp);
+                callbacks.call_reject(self, &entry, reject);
+            }
         }
     }
 
